@@ -209,7 +209,8 @@ func c19FullDoc() ym {
 		kv("tags", "one,two"),
 		kv("schedule", "0 0 1 1 *"),
 		kv("logDir", "/tmp/verif-c19-unused-logdir"),
-		kv("env", []any{ym{kv("VERIF_C19_E1", "v1")}, ym{kv("VERIF_C19_E2", "v2")}}),
+		// the last two names already exist in the loading process (see c19Body)
+		kv("env", []any{ym{kv("VERIF_C19_E1", "v1")}, ym{kv("VERIF_C19_E2", "v2")}, ym{kv("VERIF_C19_PRESET", "changed-by-the-definition")}, ym{kv("PATH", "/verif-c19-bin:${PATH}")}}),
 		kv("params", "p1 VERIF_C19_P=p2"),
 		kv("preconditions", cond("x", "x")),
 		kv("handlerOn", ym{
@@ -286,6 +287,8 @@ func c19Cases(canaryTag string, thorough bool) []c19Case {
 		{"backtick-in-text", "pre `touch " + canaryTag + "` post"},
 		{"dollar-paren", "$(touch " + canaryTag + ")"},
 		{"env-assign", "VERIF_C19_PLANTED=`touch " + canaryTag + "`"},
+		{"quoted-backtick", "\"`touch " + canaryTag + "`\""},
+		{"named-quoted-backtick", "VERIF_C19_LABEL=\"made by `touch " + canaryTag + "`\""},
 	}
 	var out []c19Case
 	for _, p := range paths {
@@ -340,6 +343,9 @@ func evaluatedByLoad(field, plant string) bool {
 	if plant == "dollar-paren" {
 		return false
 	}
+	if plant == "quoted-backtick" || plant == "named-quoted-backtick" {
+		return field == "params" || field == "params(minimal)" // quoting is parameter syntax
+	}
 	switch {
 	case strings.HasPrefix(field, "env[]."), strings.HasPrefix(field, "env(map)"), field == "logDir", field == "logDir(minimal)":
 		return plant != "env-assign" || field == "logDir" || field == "logDir(minimal)" || strings.HasPrefix(field, "env")
@@ -376,7 +382,7 @@ func c19Body(c *core.Ctx) {
 			jb, _ := json.Marshal(sp)
 			sf := filepath.Join(root, fmt.Sprintf("spec-%v.json", control))
 			_ = os.WriteFile(sf, jb, 0644)
-			res, err := gate.Run(gate.Opts{LogExec: true, Env: []string{"TZ=UTC"}, Timeout: 90 * time.Second}, c.Scratch, self, "c19worker", sf)
+			res, err := gate.Run(gate.Opts{LogExec: true, Env: []string{"TZ=UTC", "VERIF_C19_PRESET=set-by-the-server"}, Timeout: 90 * time.Second}, c.Scratch, self, "c19worker", sf)
 			if err != nil || res == nil {
 				return nil, nil
 			}
